@@ -465,7 +465,8 @@ const ARG_NAMES: [&str; 6] = ["a0", "a1", "a2", "a3", "a4", "a5"];
 const FN_NAMES: [&str; 6] = ["g0", "g1", "g2", "g3", "g4", "g5"];
 const CC_NAMES: [&str; 8] = ["C", "cdecl", "stdcall", "fastcall", "thiscall", "vectorcall", "system", "bogus"];
 
-/// type choice for arguments / return types: 0 u32, 1 u64, 2 *const T, 3 *mut u8, 4 undefined name, 5 bool, 6 *const Nope
+/// type choice for arguments / return types: 0 u32, 1 u64, 2 *const T, 3 *mut u8, 4 undefined name, 5 bool, 6 *const Nope,
+/// 7 *mut *const T, 8 *const *mut u8 (pointer chains whose levels differ in mutability)
 fn arg_type(k: i64) -> T {
     match k {
         0 => T::ident("u32"),
@@ -474,6 +475,8 @@ fn arg_type(k: i64) -> T {
         3 => T::ident("u8").mut_pointer(),
         4 => T::ident("Nope"),
         5 => T::ident("bool"),
+        7 => T::ident("T").const_pointer().mut_pointer(),
+        8 => T::ident("u8").mut_pointer().const_pointer(),
         _ => T::ident("Nope").const_pointer(),
     }
 }
